@@ -47,12 +47,32 @@ pub fn vec_owned<D: DataRef>(v: &VecZnx<D>) -> VecZnx<Vec<u8>> {
     out
 }
 
-/// Runs `f` with a scratch arena of `bytes` bytes pre-filled with garbage pattern `which`.
+thread_local! {
+    static SCRATCH: std::cell::RefCell<[Vec<u8>; 4]> = const { std::cell::RefCell::new([Vec::new(), Vec::new(), Vec::new(), Vec::new()]) };
+}
+
+/// Runs `f` with a scratch arena of at least `bytes` bytes pre-filled with garbage pattern `which`.
+/// The arena is a per-thread, per-pattern buffer (a fresh multi-megabyte allocation per call would serialise the
+/// workers in the kernel); the first `query + 16 KiB` bytes are re-filled before every call, the remainder keeps
+/// the pattern of the initial full fill (never zeros). `bytes` = companion query + slack (callers add 1 MiB).
 pub fn with_scratch<B: Bk, T>(bytes: usize, which: usize, f: impl FnOnce(&mut Scratch<B>) -> T) -> T {
     let bytes = bytes.div_ceil(64) * 64 + 64;
-    let mut buf = alloc_aligned::<u8>(bytes);
-    garbage(&mut buf, which);
-    f(B::scratch_from_bytes(&mut buf))
+    let which = which & 3;
+    // take the buffer out of the cell so that a panic inside `f` cannot leave it borrowed
+    let mut buf = SCRATCH.with(|c| std::mem::take(&mut c.borrow_mut()[which]));
+    if buf.len() < bytes {
+        buf = alloc_aligned::<u8>(bytes.max(2 << 20));
+        garbage(&mut buf, which);
+    } else {
+        let hot = (bytes.saturating_sub(1 << 20) + (16 << 10)).min(buf.len());
+        garbage(&mut buf[..hot], which);
+    }
+    let r = std::panic::catch_unwind(std::panic::AssertUnwindSafe(|| f(B::scratch_from_bytes(&mut buf[..bytes]))));
+    SCRATCH.with(|c| c.borrow_mut()[which] = buf);
+    match r {
+        Ok(v) => v,
+        Err(e) => std::panic::resume_unwind(e),
+    }
 }
 
 // ---------------------------------------------------------------------------------------------
